@@ -67,18 +67,35 @@ def generate(master, index, tier):
     bufsize = rng.choice(BUFSIZES)
     if level == 1:
         n = rng.choice((0, 1, 2, 5, 20, 60, 200, 600, 1500))
+        long_lived = index % 100 == 41  # a long-lived connection: > 64 KiB through one wrapper
+        if long_lived:
+            n = rng.choice((66000, 70000, 140000, 300000))
+            bufsize = rng.choice((512, 4096, 4096, 8192))
         data = _stream_bytes(rng, n)
         ops = []
-        for _ in range(rng.choice((1, 2, 3, 5, 8, 15, 30))):
+        for _ in range(rng.choice((1, 2, 3, 5, 8, 15, 30)) if not long_lived else rng.choice((150, 400))):
             r = rng.random()
             if r < 0.7:
                 k = rng.choice((0, 1, 1, 2, 3, 6, bufsize - 1, bufsize, bufsize + 1, rng.randrange(1, 300), n + 5, 100000))
+                if long_lived:
+                    k = rng.choice((37, 512, 1000, 1029, 4096, bufsize, rng.randrange(1, 3000)))
                 ops.append(["read", max(0, k)])
             elif r < 0.9:
                 ops.append(["readline"])
             else:
                 ops.append(["inw"])
         scn = {"prop": PROP, "level": 1, "bufsize": bufsize, "stream": data.hex(), "ops": ops}
+        if index % 7 == 3 and not long_lived and n > 0:
+            # the same contract with a transfer encoding configured: "the peer's byte stream" is
+            # then the decoded one.  `stream` becomes the chunk-encoded form of the data.
+            from .. import wire as _w
+
+            cuts = sorted({rng.randrange(1, n) for _ in range(rng.choice((0, 1, 3, 8)))}) if n > 1 else []
+            bodies = [data[a:b] for a, b in zip([0] + cuts, cuts + [n]) if b > a]
+            enc_stream, _ = _w.chunk_encode(bodies, None, rng.random() < 0.7)
+            scn["enc"] = 1
+            scn["stream"] = enc_stream.hex()
+            n = len(enc_stream)
         model = rng.choice(("adv", "adv", "timed"))
         if model == "adv":
             nfaults = rng.choice((0, 0, 1, 2, 4))
@@ -190,11 +207,29 @@ def _execute_l1(scn):
     multi_recv_ops = 0
     injected = tuple(sorted(set(("TimeoutError",) + ERROR_NAMES)))
 
+    enc = scn.get("enc", 0)
+    memo = {"pos": -1, "dec": b""}
+
+    def model():
+        """the byte queue: what the peer has sent so far, as the application should see it"""
+        if not enc:
+            return data[: link.pos]
+        if memo["pos"] != link.pos:
+            from .. import wire as _w
+
+            try:
+                memo["dec"] = _w.chunk_decode_reference(data[: link.pos], enc)
+            except ValueError:
+                memo["dec"] = memo["dec"]  # cut inside a chunk terminator: nothing new is complete
+            memo["pos"] = link.pos
+        return memo["dec"]
+
     def check_prefix(res, what):
         nonlocal viol
         handed.extend(res)
-        recvd = link.pos
-        if len(handed) > recvd or data[len(handed) - len(res) : len(handed)] != bytes(res):
+        mdl = model()
+        recvd = len(mdl)
+        if len(handed) > recvd or mdl[len(handed) - len(res) : len(handed)] != bytes(res):
             viol = violation(
                 PROP,
                 "not-prefix",
@@ -230,8 +265,8 @@ def _execute_l1(scn):
             multi_recv_ops += 1
         if kind == "inw":
             results.append((kind, res))
-            if not isinstance(res, int) or res < 0 or res > link.pos - len(handed):
-                viol = violation(PROP, "in-waiting", f"in_waiting()={res!r} with {link.pos - len(handed)} bytes received and not yet handed out")
+            if not isinstance(res, int) or res < 0 or res > len(model()) - len(handed):
+                viol = violation(PROP, "in-waiting", f"in_waiting()={res!r} with {len(model()) - len(handed)} bytes received and not yet handed out")
                 return False
             return True
         if not isinstance(res, (bytes, bytearray)):
@@ -269,7 +304,7 @@ def _execute_l1(scn):
 
     try:
         try:
-            sw = SocketWrapper(SimSocket(link), bufsize=scn["bufsize"])
+            sw = SocketWrapper(SimSocket(link), bufsize=scn["bufsize"], **({"encoding": enc} if enc else {}))
         except SimBudgetExceeded:
             raise
         except Exception as e:  # pylint: disable=broad-except
@@ -301,11 +336,11 @@ def _execute_l1(scn):
                             if n == 1:
                                 break
                             n = max(1, n // 2)
-                if viol is None and bytes(handed) != data[: link.pos]:
+                if viol is None and bytes(handed) != model():
                     viol = violation(
                         PROP,
                         "bytes-lost",
-                        f"after faults stopped and full drain {len(handed)} bytes handed out of {link.pos} received",
+                        f"after faults stopped and full drain {len(handed)} bytes handed out of {len(model())} received",
                     )
     except SimBudgetExceeded as e:
         viol = violation(PROP, "non-termination", str(e))
@@ -315,6 +350,8 @@ def _execute_l1(scn):
     explicit["decisions"] = link.taken
     counters = {"fault:" + k: v for k, v in fired.items()}
     counters["l1_runs"] = 1
+    if enc:
+        counters["l1_runs_chunked"] = 1
     counters["l1_ops"] = len(results)
     counters["l1_multi_recv_ops"] = multi_recv_ops
     counters["recv_calls"] = link.calls
